@@ -287,7 +287,10 @@ def level2_case(root, ninja, argdump, ins, outs, tag, fail):
     for i, n in enumerate(outs):
         L.append(b"o%d = " % i + let_escape(n) + b"\n")
     L.append(b"tag = " + let_escape(tag) + b"\n")
-    L.append(b"rule r\n  command = $ad $in -- $out > dump.bin && cat rsp.txt > rspcopy.bin $fail\n  rspfile = rsp.txt\n  rspfile_content = RSP:$tag\n")
+    # an empty tag makes the whole content evaluate to nothing: the file must then be written empty, not left as it was
+    L.append(b"rule r\n  command = $ad $in -- $out > dump.bin && cat rsp.txt > rspcopy.bin $fail\n  rspfile = rsp.txt\n  rspfile_content = "
+             + (b"RSP:$tag" if tag else b"$tag") + b"\n")
+    open(os.path.join(d, "rsp.txt"), "wb").write(b"STALE-CONTENT-OF-AN-EARLIER-FAILED-COMMAND")
     L.append(b"build " + b" ".join(b"${o%d}" % i for i in range(len(outs))) + b": r " + b" ".join(b"${i%d}" % i for i in range(len(ins))) + b"\n")
     L.append(b"  fail = " + (b"&& false" if fail else b"") + b"\n")
     open(os.path.join(d, "build.ninja"), "wb").write(b"".join(L))
@@ -304,8 +307,9 @@ def level2_case(root, ninja, argdump, ins, outs, tag, fail):
     if parsed is None or parsed[0] != want:
         return dict(kind="the command received %r, expected %r" % (parsed[0] if parsed else dump[:200], want), detail=detail)
     rsp = open(os.path.join(d, "rspcopy.bin"), "rb").read() if os.path.exists(os.path.join(d, "rspcopy.bin")) else None
-    if rsp != b"RSP:" + tag:
-        return dict(kind="response file held %r when the command started, expected %r" % (rsp, b"RSP:" + tag), detail=detail)
+    want_rsp = (b"RSP:" + tag) if tag else b""
+    if rsp != want_rsp:
+        return dict(kind="response file held %r when the command started, expected %r" % (rsp, want_rsp), detail=detail)
     left = os.path.exists(os.path.join(d, "rsp.txt"))
     if fail and (p.returncode == 0 or not left):
         return dict(kind="failing command: exit %d, response file kept: %s (must be kept)" % (p.returncode, left), detail=detail)
@@ -386,7 +390,7 @@ def level2_worker(widx, n_examples):
         @hseed(common.sub_seed(PROP, 'l2', widx))
         @settings(max_examples=n_examples, deadline=None, database=None, suppress_health_check=list(HealthCheck),
                   phases=[Phase.generate, Phase.shrink], verbosity=Verbosity.quiet, report_multiple_bugs=False)
-        @given(st.lists(nm, min_size=1, max_size=3, unique=True), st.lists(nm, min_size=1, max_size=2, unique=True), nm, st.booleans())
+        @given(st.lists(nm, min_size=1, max_size=3, unique=True), st.lists(nm, min_size=1, max_size=2, unique=True), st.one_of(nm, nm, nm, st.just(b"")), st.booleans())
         def test(ins, outs, tag, fail):
             if set(ins) & set(outs) or any(x in (b"dump.bin", b"rsp.txt", b"rspcopy.bin", b"build.ninja") for x in ins + outs):
                 return
